@@ -100,7 +100,8 @@ func contend(spec contendSpec) {
 	json.NewEncoder(os.Stdout).Encode(map[string]interface{}{"keys": len(contendCount), "not_once": bad,
 		"generic_runs":   []int32{atomic.LoadInt32(&genericRuns[0]), atomic.LoadInt32(&genericRuns[1])},
 		"invalid_member": invalidProbe(), "name_prefix": namesProbe(), "custom_fn": customProbe(), "verbose_late": verboseProbe(),
-		"wide": wideProbe(), "ctx_err": ctxErrProbe(), "escaped_names": escapedProbe(), "suffix_and_empty_args": suffixProbe(), "long_wait": longProbe(spec.LongMs)})
+		"wide": wideProbe(), "ctx_err": ctxErrProbe(), "escaped_names": escapedProbe(), "suffix_and_empty_args": suffixProbe(), "long_wait": longProbe(spec.LongMs),
+		"rerequest_after_many": rerequestProbe(), "crowd": crowdProbe()})
 }
 
 // ---- a function of package ".../tasks.V2" and the method of type V2 in package ".../tasks" have
@@ -359,12 +360,18 @@ func customProbe() map[string]interface{} {
 func VpEarly() {}
 func VpLate()  {}
 
+type vpOps struct{ n int32 }
+
+func (o *vpOps) Push() { atomic.AddInt32(&o.n, 1) } // a pointer-receiver method VALUE is a func(): a legal dependency, named main.(*vpOps).Push-fm
+
+var vpOpsVal = &vpOps{}
+
 func verboseProbe() string {
 	os.Unsetenv("MAGEFILE_VERBOSE")
 	mg.Deps(VpEarly)                   // what an init() of a magefile may do
 	os.Setenv("MAGEFILE_VERBOSE", "1") // what the generated main does for -v
 	fmt.Fprintln(os.Stderr, "VPROBE-BEGIN")
-	mg.Deps(VpLate, VpEarly)
+	mg.Deps(VpLate, VpEarly, vpOpsVal.Push)
 	fmt.Fprintln(os.Stderr, "VPROBE-END")
 	os.Setenv("MAGEFILE_VERBOSE", "0")
 	return "see stderr"
@@ -468,6 +475,62 @@ func suffixProbe() map[string][]int32 {
 	for i := range eaCount {
 		out["empty_args"] = append(out["empty_args"], atomic.LoadInt32(&eaCount[i]))
 	}
+	return out
+}
+
+// after many thousands of other dependencies have been registered, dependencies that finished long ago are still
+// remembered: requesting them again runs nothing (the registry must not forget; C01, C13)
+func rerequestProbe() []int32 {
+	mg.Deps(NmBuild, NmF1)
+	mg.SerialDeps(NmBuildAll, VpEarly)
+	return []int32{atomic.LoadInt32(&nmCount[0]), atomic.LoadInt32(&nmCount[1]), atomic.LoadInt32(&nmCount[2]), atomic.LoadInt32(&nmCount[3])}
+}
+
+// a crowd of dependencies in flight at once (all blocked) does not change what a call does for a dependency another
+// call has in flight: it waits for it (C02)
+var crowdRelease = make(chan struct{})
+var crowdIndexDone int32
+
+func crowdBlocked(i int) { <-crowdRelease }
+func crowdIndex() {
+	<-crowdRelease
+	time.Sleep(30 * time.Millisecond)
+	atomic.StoreInt32(&crowdIndexDone, 1)
+}
+
+func crowdProbe() string {
+	const n = 12000
+	started := make(chan struct{})
+	go func() { close(started); mg.Deps(crowdIndex) }()
+	<-started
+	fns := make([]interface{}, n)
+	for i := range fns {
+		fns[i] = mg.F(crowdBlocked, i)
+	}
+	crowdDone := make(chan struct{})
+	go func() {
+		defer close(crowdDone)
+		defer func() { recover() }()
+		mg.Deps(fns...)
+	}()
+	time.Sleep(400 * time.Millisecond) // let them all get in flight
+	res := make(chan string, 1)
+	go func() {
+		panicked := false
+		func() {
+			defer func() { panicked = recover() != nil }()
+			mg.Deps(crowdIndex)
+		}()
+		if atomic.LoadInt32(&crowdIndexDone) != 1 {
+			res <- fmt.Sprintf("with %d dependencies in flight, Deps(dependency another call has in flight) ended (panicked: %v) while that dependency was still running", n, panicked)
+			return
+		}
+		res <- ""
+	}()
+	time.Sleep(200 * time.Millisecond)
+	close(crowdRelease)
+	out := <-res
+	<-crowdDone
 	return out
 }
 
